@@ -111,7 +111,7 @@ def _check_variant(prop, patch, vdir, expect_violation):
             if l.startswith("VIOLATION"):
                 first = " | ".join(x.strip() for x in lines[i + 1:i + 4])[:300]
                 break
-        if c.returncode not in (0, 1) or (c.returncode == 1 and not viol):
+        if c.returncode not in (0, 1) or (c.returncode == 1 and not viol) or "rule X.internal" in c.stdout:
             return {"patch": os.path.relpath(patch, VERIF), "status": "CHECK-ERROR", "detail": c.stdout[-300:]}
         fired = bool(viol)
         return {"patch": os.path.relpath(patch, VERIF), "status": "ok" if fired == expect_violation else ("MISSED" if expect_violation else "FALSE-ALARM"),
